@@ -1765,8 +1765,9 @@ def rule_alias(ck, agg, facts, bydecl=None):
                 if d in ptr or "*" not in f.type(v.get("t")):
                     continue
                 init = v.get("init")
-                while init is not None and init.get("k") == "Cast":
-                    init = init.get("e")
+                while init is not None and (init.get("k") == "Cast" or (init.get("k") == "Bin" and init.get("op") in ("+", "-") and "*" in f.ntype(init))):
+                    # br = reinterpret_cast<B*>(r);  br_end = br + columns (an end pointer into the same array)
+                    init = init.get("e") if init.get("k") == "Cast" else (init.get("lhs") if "*" in f.ntype(init.get("lhs") or {}) else init.get("rhs"))
                 if init is not None and init.get("k") == "Ref" and init.get("d") in ptr:
                     ptr[d] = ptr[init["d"]]
                     changed = True
@@ -1840,7 +1841,7 @@ def rule_alias(ck, agg, facts, bydecl=None):
                 par = fi.parent.get(id(par))
             # pointer arithmetic in an argument position (std::copy(y, y + n, r)): look at the enclosing call
             while par is not None and par.get("k") == "Bin" and par.get("op") in ("+", "-") and "*" in f.ntype(par) \
-                    and (fi.parent.get(id(par)) or {}).get("k") in ("Call", "Cast", "Bin"):
+                    and (fi.parent.get(id(par)) or {}).get("k") in ("Call", "Cast", "Bin", "Var", "Decl"):
                 par = fi.parent.get(id(par))
                 while par is not None and par.get("k") == "Cast":
                     par = fi.parent.get(id(par))
@@ -1885,6 +1886,17 @@ def rule_alias(ck, agg, facts, bydecl=None):
                         writes.append({"kind": "whole", "node": par, "idx": None})
                         continue
                     if ai == 1 and who == "y" and cal.endswith("::copy"):
+                        reads.append({"kind": "whole", "node": par, "idx": None})
+                        continue
+                if STD_TRANSFORM.match(cal) and ai is not None and len(args) in (4, 5):
+                    # std::transform(first, last, [first2,] out, op): reads the input range(s), writes [out, ..) element by element
+                    dsti = len(args) - 2
+                    if who == "r" and ai == dsti:
+                        writes.append({"kind": "whole", "node": par, "idx": None})      # every element of the range is rewritten
+                        continue
+                    if who == "r":
+                        continue                              # r as an input range: a read of r
+                    if who == "y" and ai != dsti:
                         reads.append({"kind": "whole", "node": par, "idx": None})
                         continue
                 if (STD_FILL.match(cal) or STD_COPY.match(cal) or C_MEM.match(cal)) and ai is not None:
@@ -2141,6 +2153,7 @@ def loop_bound(fi, loop, allow_reverse=False):
 STD_FILL = re.compile(r"^std::(fill|fill_n)$")
 STD_COPY = re.compile(r"^std::(copy|copy_n)$")
 C_MEM = re.compile(r"^(std::)?(memcpy|memmove|memset)$")
+STD_TRANSFORM = re.compile(r"^std::transform$")
 
 
 def may_initialise(bydecl, callee, pidx_, depth=0):
@@ -2344,6 +2357,16 @@ def _rule_e2_kernel(ck, agg, f, fi, key, dfile, alias_viol, bydecl):
                 return "?"
             return "?"
 
+        def ptr_plus(n, base):
+            """n == base + N  ->  N node"""
+            n = fi.resolve(n)
+            if n.get("k") == "Bin" and n.get("op") == "+":
+                if base_name(fi.resolve(n["lhs"])) == base:
+                    return n["rhs"]
+                if base_name(fi.resolve(n["rhs"])) == base:
+                    return n["lhs"]
+            return None
+
         if not banded:
             bad = []
             unknown = []
@@ -2379,6 +2402,37 @@ def _rule_e2_kernel(ck, agg, f, fi, key, dfile, alias_viol, bydecl):
                         unknown.append("%s[%s] (line %s)" % (bn, render(idx), n.get("l")))
                     elif kd != want:
                         bad.append("%s[%s] is indexed by kind %s, expected %s%s (line %s)" % (bn, render(idx), kd, want, " in the transposed product" if t_eff else "", n.get("l")))
+            # iterator ranges [p, p + N) over r/x/y handed to a standard algorithm: N is the extent of that array
+            for c in f.calls():
+                if c.get("k") != "Call" or not (c.get("callee", "") or "").startswith("std::"):
+                    continue
+                args = c.get("a", [])
+                for i_ in range(len(args) - 1):
+                    bn = base_name(fi.resolve(args[i_]))
+                    if bn not in ("r", "x", "y"):
+                        continue
+                    nn = ptr_plus(args[i_ + 1], bn)
+                    if nn is None:
+                        continue
+                    flag = flag_of(c)
+                    if flag == "dead":
+                        continue
+                    m_ = fi.resolve(nn)
+                    while m_.get("k") == "Cast":
+                        m_ = fi.resolve(m_["e"])
+                    if m_.get("k") == "Bin" and m_.get("op") == "*":
+                        m_ = fi.resolve(m_["lhs"]) if fi.role(m_["rhs"])[0] == "const" else fi.resolve(m_["rhs"]) if fi.role(m_["lhs"])[0] == "const" else m_
+                    rr = fi.role(m_)
+                    kd = {"rows": "Row", "columns": "Col"}.get(f.params[rr[1]]["n"], "?") if rr[0] == "param" else "?"
+                    what = "range [%s, %s + %s) in %s" % (render(args[i_])[:20], render(args[i_])[:20], render(fi.resolve(nn))[:30], c.get("callee"))
+                    if kd == "?" or (tflag and flag is None):
+                        unknown.append("%s (line %s)" % (what, c.get("l")))
+                        continue
+                    t_eff = transposed_kernel or (flag is True)
+                    want = {"r": "Col" if t_eff else "Row", "x": "Row" if t_eff else "Col", "y": "Col" if t_eff else "Row"}[bn]
+                    nsub += 1
+                    if kd != want:
+                        bad.append("%s has the extent of kind %s, expected %s%s (line %s)" % (what, kd, want, " in the transposed product" if t_eff else "", c.get("l")))
             if unknown:
                 ck.incomplete("E2.kernel-kinds", "%s: index expression(s) of unrecognised kind (loop shape not modelled): %s" % (key, "; ".join(unknown[:4])))
             agg.add("E2.kernel-kinds", key, not bad and (nsub > 0 or bool(unknown)), "; ".join(bad[:4]) if bad else ("%d subscripts of r/x/val/col_ind in the kind of their index space" % nsub if nsub else "no subscripts recognised"),
@@ -2438,16 +2492,6 @@ def _rule_e2_kernel(ck, agg, f, fi, key, dfile, alias_viol, bydecl):
                 return None, want
             return e == want, want
 
-        def ptr_plus(n, base):
-            """n == base + N  ->  N node"""
-            n = fi.resolve(n)
-            if n.get("k") == "Bin" and n.get("op") == "+":
-                if base_name(fi.resolve(n["lhs"])) == base:
-                    return n["rhs"]
-                if base_name(fi.resolve(n["rhs"])) == base:
-                    return n["lhs"]
-            return None
-
         events, writers = [], []
         consumed = set()
         for c in f.calls():
@@ -2499,6 +2543,8 @@ def _rule_e2_kernel(ck, agg, f, fi, key, dfile, alias_viol, bydecl):
                 if base_name(fi.resolve(a)) == "r" or ptr_plus(a, "r") is not None:
                     t = f.type(pts[i]).strip() if i < len(pts) else ""
                     if not t or (("*" in t or "&" in t) and not t.startswith("const ")):
+                        if STD_TRANSFORM.match(c.get("callee", "") or "") and i > 0 and base_name(fi.resolve(c["a"][0])) == "r":
+                            continue          # in-place transform of r: every new value is computed from the old one, not an initialisation
                         if may_initialise(bydecl, bydecl.get(c.get("cdecl")), i):
                             writers.append((c, "r is passed to the mutable parameter #%d of %s" % (i, c.get("callee", "?"))))
         for n in f.nodes():
